@@ -138,7 +138,7 @@ def meta(tier):
             'statements are batched (one assembly per generated ISA definition and base address); on any mismatch every statement '
             'of the batch is re-assembled on its own to isolate the failing ones',
         ],
-        'floors': {'evaluations': 50, 'nontrivial': 1000, 'statuses': ['OK'], 'clauses': ['single', 'pair', 'variant-sequence']},
+        'floors': {'evaluations': 50, 'nontrivial': 1000, 'statuses': ['OK'], 'clauses': ['single', 'pair', 'variant-sequence', 'zero-operand-variant']},
         'nshards': 64, 'xcheck': 8,
     }
 
@@ -211,6 +211,7 @@ def shard(acc, tier, idx, n):
     q = tier == 'quick'
     ctr = 0
     variant_sequences(acc, idx, n)
+    zero_operand_variants(acc, idx, n)
     full = catalogue_full()
     ycat = catalogue_yaml()
     small = catalogue_small()
@@ -228,6 +229,8 @@ def shard(acc, tier, idx, n):
                     instrs.append((ins, statements_for(ins, de)))
                 # plus the operand-less instruction of this frame
                 instrs.append((G.InstrSpec('inop', (op[0], op[1]), oe, suf, []), [()]))
+                # ... and the same with `operands: {count: 0}` spelled out
+                instrs.append((G.InstrSpec('inop0', (op[0], op[1]), oe, suf, [], route='count0'), [()]))
                 run_batch(acc, instrs, de, 'single', yaml)
     # ---- part B: pairs ---------------------------------------------------------------------------------
     for (de, op, oe, suf) in frames(tier, 'B'):
@@ -293,6 +296,40 @@ def variant_sequences(acc, idx, n):
                 if m:
                     acc.violation([case], spec, f'{spec["statement"]}: {m}', [out])
                 acc.judge(clause='variant-sequence', nontrivial_distinct=(k > 1))
+
+
+def zero_operand_variants(acc, idx, n):
+    """An instruction whose variants differ in operand count, one of them taking none (`operands: {count: 0}`) and carrying its own
+    opcode suffix: every field of the selected variant is emitted."""
+    ctr = 0
+    for de, (op0, w0), (sfx, sw) in itertools.product(('big', 'little'), ((0x5, 3), (0x16, 5), (0xA5, 8)), ((0x3, 2), (0x5, 3), (0x1A5, 9))):
+        for zero_first in (False, True):
+            ctr += 1
+            if ctr % n != idx:
+                continue
+            with_reg = {'bytecode': {'value': op0, 'size': w0, 'suffix': {'value': sfx, 'size': sw}},
+                        'operands': {'count': 1, 'operand_sets': {'list': ['r']}}}
+            without = {'bytecode': {'value': op0 ^ 1, 'size': w0, 'suffix': {'value': sfx ^ 1, 'size': sw}}, 'operands': {'count': 0}}
+            first, second = (without, with_reg) if zero_first else (with_reg, without)
+            isa = {'general': {'address_size': 16, 'endian': de, 'registers': ['a', 'b'], 'min_version': '0.3.0'},
+                   'operand_sets': {'r': {'operand_values': {'ra': {'type': 'register', 'register': 'a', 'bytecode': {'value': 1, 'size': 2}},
+                                                             'rb': {'type': 'register', 'register': 'b', 'bytecode': {'value': 2, 'size': 2}}}}},
+                   'instructions': {'shl': dict(first, variants=[second]),
+                                    'ret': {'bytecode': {'value': op0, 'size': w0, 'suffix': {'value': sfx, 'size': sw}}, 'operands': {'count': 0}}}}
+            from mc import refenc
+            def enc(fields):
+                return bytes(refenc.encode([(v, w, False, de) for v, w in fields]))
+            stmts = [('shl a', enc([(op0, w0), (1, 2), (sfx, sw)])), ('shl b', enc([(op0, w0), (2, 2), (sfx, sw)])),
+                     ('shl', enc([(op0 ^ 1, w0), (sfx ^ 1, sw)])), ('ret', enc([(op0, w0), (sfx, sw)]))]
+            for k in (1, 2):
+                for seq in itertools.product(stmts, repeat=k):
+                    case = Case(isa, '\n'.join('    ' + t for t, _ in seq) + '\n')
+                    out = acc.run(case)
+                    spec = {'expect': 'OK', 'image_hex': b''.join(d for _, d in seq).hex(), 'statement': ' / '.join(t for t, _ in seq), 'address': 0}
+                    m = judge(spec, [out])
+                    if m:
+                        acc.violation([case], spec, f'{spec["statement"]} (opcode {w0} bits, suffix {sw} bits, {de}): {m}', [out])
+                    acc.judge(clause='zero-operand-variant', nontrivial_distinct=True)
 
 
 def judge(spec, outcomes):
